@@ -82,8 +82,13 @@ def _collect(gen):
 
 
 def _clear_caches():
+    # best effort (only varies the call history): however the three tables are memoised, an lru_cache is emptied
     for nm in ("pinword_to_perm_mapping", "perm_to_pinword_mapping", "perm_to_strict_pinword_mapping"):
-        PW.__dict__[nm].__func__.cache_clear()
+        try:
+            f = PW.__dict__[nm]
+            getattr(f, "__func__", f).cache_clear()
+        except (KeyError, AttributeError):
+            pass
 
 
 def _fp2w(tbl):
